@@ -37,6 +37,9 @@ Pats == { UCat(ULit(SA), UCat(LF1, ULit(SB))),                    \* a\nb
           UCat(ULit(SA), UCat(LF1, ULook("wb"))),                   \* a\n\b   (assertion looking at the next line's first byte)
           UAlt(UCat(ULit(SA), UCat(LF1, ULit(SA))), ULook("nwb")),  \* a\na|\B   (an empty match, then a spanning one on the same line)
           UAlt(ULook("nwb"), UCat(ULit(SA), UCat(LF1, ULit(SA)))),  \* \B|a\na
+          \* a match that ends with the terminator, then an EMPTY match right where it ended (the only match of that next line)
+          UAlt(UCat(ULit(SA), LF1), UCat(ULook("bol"), ULook("eol"))),  \* a\n|^$
+          UAlt(UCat(ULit(SA), LF1), URep(ULit(SB), 0, Inf, TRUE)),      \* a\n|b*
           ULit(SA), UCat(ULit(SA), ULit(SB)) }
 
 Opt(ci, word, line, crlf) == [ci |-> ci, smart |-> FALSE, word |-> word, line |-> line, crlf |-> crlf, nul |-> FALSE, inv |-> FALSE, dotall |-> FALSE]
